@@ -417,11 +417,35 @@ class Body:
         finally:
             self.names = old
 
+    def _through_newtypes(self, p):
+        """the place with the `.0` of a new integer wrapper (Facts.int_newtypes) dropped."""
+        nt = self.facts.int_newtypes
+        if not nt or not p["p"]:
+            return p
+        ty = self.lty(p["l"])
+        out = []
+        for e in p["p"]:
+            if ty is not None:
+                ty = re.sub(r"^&('[a-z_]+ )?(mut )?", "", ty) if e == "*" else ty
+            if e == "*":
+                out.append(e)
+                continue
+            if isinstance(e, dict) and "f" in e and ty in nt:
+                ty = nt[ty]
+                continue
+            if isinstance(e, dict) and "f" in e and ty is not None:
+                ty = self.facts.field_ty(ty, e["n"])
+            else:
+                ty = None
+            out.append(e)
+        return p if len(out) == len(p["p"]) else {"l": p["l"], "p": out}
+
     def pname(self, p, depth=4, seen=None):
         """render a place."""
         # flatten `tmp = copy P; ... (*tmp).f` and `tmp = &P; (*tmp).f` into one place, so that a captured variable that
         # is read through a temporary still matches its debug entry
         for _ in range(6):
+            p = self._through_newtypes(p)
             l = p["l"]
             if l in self.names or l <= self.argc:
                 break
@@ -652,6 +676,8 @@ class Body:
         if k == "agg":
             kd = rv["kind"]
             a = kd.get("a")
+            if a == "adt" and kd.get("adt") in self.facts.int_newtypes and len(rv["ops"]) == 1:
+                return self.oname(rv["ops"][0], depth, seen)
             if a == "adt":
                 return "%s::%s{%s}" % (kd["adt"].split("::")[-1], kd["var"], ",".join(self.oname(o, depth - 1, seen) for o in rv["ops"]))
             if a in ("closure", "coroutine"):
@@ -681,6 +707,8 @@ class Body:
                     return c["int"]
                 if c is not None and "bytes" in c:
                     return repr(bytes.fromhex(c["bytes"]))
+                if c is not None and c.get("ty") in self.facts.int_newtypes and "raw" in c:
+                    return str(int.from_bytes(bytes.fromhex(c["raw"]), "little", signed=self.facts.int_newtypes[c["ty"]].startswith("i")))
             return k.get("s", "?")
         p = op_place(o)
         # (tmp.0) of a checked op renders as the op itself
@@ -847,6 +875,7 @@ class Facts:
             self.d = json.load(f)
         self.path = path
         self.data_renames = self._resolve_data_renames()
+        self.split_locals = self._split_new_struct_locals()
         self.bodies = {}
         self.dups = []
         for bd in self.d["bodies"]:
@@ -860,6 +889,19 @@ class Facts:
         self.consts = {c["name"]: c for c in self.d["consts"]}
         self.statics = {c["name"]: c for c in self.d.get("statics", [])}
         self.adts = {a["name"]: a for a in self.d["adts"]}
+        # a struct of one integer field that the reviewed tree does not have (tables/adts.json) is a wrapper put around a
+        # number after the review: renderings look through it (`Depth(d.0 - 1)` is `d - 1`)
+        self.int_newtypes = {}
+        try:
+            with open(os.path.join(V, "tables", "adts.json")) as f_:
+                reviewed_ = set(json.load(f_))
+        except Exception:
+            reviewed_ = None
+        if reviewed_ is not None:
+            for n_, a_ in self.adts.items():
+                if n_ not in reviewed_ and not a_.get("enum") and len(a_["variants"]) == 1 and len(a_["variants"][0]["fields"]) == 1 \
+                        and re.match(r"^(u8|u16|u32|u64|u128|usize|i8|i16|i32|i64|i128|isize|bool)$", a_["variants"][0]["fields"][0]["ty"]):
+                    self.int_newtypes[n_] = a_["variants"][0]["fields"][0]["ty"]
         self.impls = self.d["impls"]
         self._cg = None
         self._closures_of = None
@@ -868,6 +910,114 @@ class Facts:
         self.new_helpers = {}
         self.hidden = {}
         self._apply_reviewed_view()
+
+    def _split_new_struct_locals(self):
+        """A local of a struct type that the reviewed tree does not have (tables/adts.json), which the function only ever
+        touches field by field (plus whole assignments from a struct literal or a constant of known field values), is a
+        bundle of independent variables that were grouped after the review: it is split back into one local per field
+        (`pending.len` becomes a variable of its own, named `pending.len`), so that every rule sees the variables it was
+        written for.  Nothing else is a candidate: a struct that is borrowed, copied, moved or handed to a call as a whole
+        stays as it is.  Returns {body path: [(local, struct)]} for the evidence."""
+        try:
+            with open(os.path.join(V, "tables", "adts.json")) as f_:
+                reviewed = set(json.load(f_))
+        except Exception:
+            return {}
+        structs = {}
+        for a in self.d["adts"]:
+            if a["name"] not in reviewed and not a.get("enum") and len(a["variants"]) == 1 and len(a["variants"][0]["fields"]) >= 2:
+                structs[a["name"]] = a["variants"][0]["fields"]
+        if not structs:
+            return {}
+        INT = re.compile(r"^(u8|u16|u32|u64|u128|usize|i8|i16|i32|i64|i128|isize|bool)$")
+
+        def is_place(x):
+            return isinstance(x, dict) and set(x.keys()) == {"l", "p"} and isinstance(x["p"], list) and isinstance(x["l"], int)
+
+        def places(x, out, skip=None):
+            if is_place(x):
+                out.append(x)
+                return
+            if isinstance(x, dict):
+                for v in x.values():
+                    places(v, out)
+            elif isinstance(x, list):
+                for v in x:
+                    places(v, out)
+        done = {}
+        for bd in self.d["bodies"]:
+            cands = [l for l, loc in enumerate(bd["locals"]) if loc["ty"] in structs and l > bd["argc"]]
+            for L in cands:
+                flds = structs[bd["locals"][L]["ty"]]
+                ok = True
+                for blk in bd["blocks"]:
+                    for st in blk["st"]:
+                        if "lhs" not in st:
+                            ps = []
+                            places(st, ps)
+                            if any(q["l"] == L for q in ps):
+                                ok = False
+                            continue
+                        rv = st["rv"]
+                        if st["lhs"]["l"] == L and not st["lhs"]["p"]:
+                            if rv["k"] == "use" and "k" in rv["o"] and isinstance(rv["o"]["k"].get("struct"), dict):
+                                fv = rv["o"]["k"]["struct"].get("fields", {})
+                                if not all(f["n"] in fv and INT.match(f["ty"]) and re.match(r"^-?\d+$", str(fv[f["n"]])) for f in flds):
+                                    ok = False
+                            elif rv["k"] == "agg" and rv["kind"].get("adt") == bd["locals"][L]["ty"] and len(rv["ops"]) == len(flds) and rv["kind"].get("fields") is not None:
+                                pass
+                            else:
+                                ok = False
+                            ps = []
+                            places(rv, ps)
+                            if any(q["l"] == L for q in ps):
+                                ok = False
+                            continue
+                        ps = []
+                        places(st, ps)
+                        if any(q["l"] == L and not (q["p"] and isinstance(q["p"][0], dict) and "f" in q["p"][0]) for q in ps):
+                            ok = False
+                    ps = []
+                    places(blk["t"], ps)
+                    if any(q["l"] == L and not (q["p"] and isinstance(q["p"][0], dict) and "f" in q["p"][0]) for q in ps):
+                        ok = False
+                    if not ok:
+                        break
+                if not ok:
+                    continue
+                # split
+                base = len(bd["locals"])
+                new_of = {}
+                lname = next((e["n"] for e in bd["dbg"] if e["p"]["l"] == L and not e["p"]["p"]), None)
+                for i, f in enumerate(flds):
+                    new_of[f["n"]] = base + i
+                    bd["locals"].append({"ty": f["ty"]})
+                    if lname is not None:
+                        bd["dbg"].append({"n": "%s.%s" % (lname, f["n"]), "p": {"l": base + i, "p": []}, "ty": f["ty"]})
+                for blk in bd["blocks"]:
+                    out = []
+                    for st in blk["st"]:
+                        if "lhs" in st and st["lhs"]["l"] == L and not st["lhs"]["p"]:
+                            rv = st["rv"]
+                            if rv["k"] == "use":
+                                fv = rv["o"]["k"]["struct"]["fields"]
+                                for f in flds:
+                                    out.append({"lhs": {"l": new_of[f["n"]], "p": []}, "rv": {"k": "use", "o": {"k": {"int": str(fv[f["n"]]), "ty": f["ty"]}}}, "ln": st["ln"], "x": st.get("x", False)})
+                            else:
+                                for n_, o_ in zip(rv["kind"]["fields"], rv["ops"]):
+                                    out.append({"lhs": {"l": new_of[n_], "p": []}, "rv": {"k": "use", "o": o_}, "ln": st["ln"], "x": st.get("x", False)})
+                            continue
+                        out.append(st)
+                    blk["st"] = out
+                    ps = []
+                    places(blk["st"], ps)
+                    places(blk["t"], ps)
+                    for q in ps:
+                        if q["l"] == L and q["p"]:
+                            q["l"] = new_of[q["p"][0]["n"]]
+                            q["p"] = q["p"][1:]
+                done.setdefault(bd["path"], []).append((L, bd["locals"][L]["ty"]))
+        return done
 
     def _resolve_data_renames(self):
         """private struct fields and named constants of the reviewed tree (tables/data_anchors.json) that were renamed:
